@@ -291,7 +291,7 @@ def run_compiled(idx, rng, sh):
 
 # ---------------------------------------------------------------- description-table files
 PLACEHOLDERS = ('<unknown', 'unrecognized', 'processor specific', 'processor-specific', 'application-specific', 'os specific', 'operating system specific', '<corrupt', 'unknown:',
-                '<other>', 'unknown')
+                '<other>', 'unknown', 'loproc+', 'loos+')
 
 
 def descr_jobs():
@@ -328,6 +328,7 @@ def run_descr(idx, rng, sh):
     if idx >= len(tables):
         return
     label, option, entries, build, key = tables[idx]
+    seen_texts = set()
     with oracles.Scratch() as s:
         for name, code in entries:
             try:
@@ -340,11 +341,12 @@ def run_descr(idx, rng, sh):
             r2 = oracles.run([sys.executable, 'scripts/readelf.py', option, p], cwd=REPO)
             sh.count('descr_entries_run')
             sh.count('entries_run:' + label.split('/')[0])
-            if 'Traceback (most recent call last)' in r2[2]:
-                sh.violation('C18:descr %s: clone raises on entry %s' % (label, name), message=r2[2].strip().splitlines()[-1][:200])
+            if 'Traceback (most recent call last)' in r2[2] or (r1[0] == 0 and r2[0] != 0):
+                sh.violation('C18:descr %s: clone raises or fails on entry %s' % (label, name), message=(r2[2].strip().splitlines() or ['?'])[-1][:200])
                 continue
             g = extract(r1[1], key, code)
             c = extract(r2[1], key, code)
+            seen_texts.add(g)
             if g is None or c is None:
                 if g is None and c is None:
                     sh.skip('entry not shown by either program')
@@ -365,6 +367,10 @@ def run_descr(idx, rng, sh):
                 sh.skip('oracle gap (oracle_gaps_C18.json)')
             elif not known_c18(sh, 'descr', '%s %s' % (label, name), g, c):
                 sh.violation('C18:descr %s entry %s differs' % (label, name), gnu=g, clone=c)
+    # liveness of the observation: if every entry of a table yields the same extracted text, the extractor does not
+    # see the field the table is about and the table has decided nothing
+    if len(entries) > 3 and len(seen_texts) <= 1:
+        sh.violation('C18:descr %s: harness: the extracted text is the same for all %d entries (nothing observed)' % (label, len(entries)), harness=True)
 
 
 def g_is_bare_code(text, code):
@@ -382,6 +388,7 @@ def extract(out, key, code):
 def descr_tables():
     import elftools.elf.descriptions as D
     import elftools.elf.enums as E
+    from elftools.elf.constants import SH_FLAGS as SH_FLAGS_CONST
     T = []
 
     def entries(tab, enum):
@@ -418,15 +425,18 @@ def descr_tables():
         T.append(('e_flags/' + label, '-h', ents, fb, ' flags:'))
 
     def secline(out, code):
-        for ln in out.splitlines():
+        # a section takes two lines in the 64-bit layout: name/type/address/offset, then size/entsize/flags/link/info/align
+        lines = out.splitlines()
+        for i, ln in enumerate(lines):
             if '.probe' in ln:
-                return ' '.join(ln.split()).lower()
+                nxt = lines[i + 1] if i + 1 < len(lines) and lines[i + 1].startswith('       ') else ''
+                return ' '.join((ln + ' ' + nxt).split()).lower()
         return None
 
     def sh_type_builder(machine):
         def b(code):
             return elfgen.build(cls=64, le=True, machine=machine, etype=1,
-                                sections=[elfgen.Sec('.probe', code, data=b'\0' * 8, entsize=0)])[0]
+                                sections=[elfgen.Sec('.probe', code, data=b'\0' * 8, entsize=4 if code == 17 else 0)])[0]
         return b
     for mach, tab, label in ((62, E.ENUM_SH_TYPE_AMD64, 'x86-64'), (40, E.ENUM_SH_TYPE_ARM, 'arm'), (183, E.ENUM_SH_TYPE_AARCH64, 'aarch64'),
                              (8, E.ENUM_SH_TYPE_MIPS, 'mips'), (243, E.ENUM_SH_TYPE_RISCV, 'riscv')):
@@ -436,8 +446,16 @@ def descr_tables():
 
     def flag_builder(code):
         return elfgen.build(cls=64, le=True, machine=62, etype=1, sections=[elfgen.Sec('.probe', 1, flags=code, data=b'\0' * 8)])[0]
-    bits = [(hex(1 << i), 1 << i) for i in range(0, 32) if (1 << i) != 0x800]
-    T.append(('sh_flags', '-S', bits, flag_builder, secline))
+    # the flags the clone has a letter for (SHF_COMPRESSED needs a compression header and is covered by the corpus)
+    known = [b for b in sorted(vars(SH_FLAGS_CONST).items()) if b[0].startswith('SHF_') and isinstance(b[1], int) and b[1] and b[1] & (b[1] - 1) == 0
+             and b[1] != 0x800]
+    T.append(('sh_flags', '-S', known, flag_builder, secline))
+    # the letters come in a fixed order: every pair of described flags, and all of them together
+    pairs = [('%s|%s' % (a[0], b[0]), a[1] | b[1]) for i, a in enumerate(known) for b in known[i + 1:]]
+    allf = 0
+    for k, v in known:
+        allf |= v
+    T.append(('sh_flags/pairs', '-S', pairs + [('all', allf)], flag_builder, secline))
 
     def segline(out, code):
         seen = False
@@ -632,6 +650,9 @@ def judge_blocks(sh, table, option, img, s, is_start, min_blocks, gnu_placeholde
     sh.count('pairs_run')
     if 'Traceback (most recent call last)' in r2[2]:
         sh.violation('C18:dwdescr %s: clone raises' % table, message=r2[2].strip().splitlines()[-1][:200])
+        return
+    if r1[0] == 0 and r2[0] != 0:
+        sh.violation('C18:dwdescr %s: clone fails (exit code %s) where GNU readelf succeeds' % (table, r2[0]), message=r2[2].strip()[-200:])
         return
     b1 = blocks_by(prepare_lines(r1[1]), is_start)
     b2 = blocks_by(prepare_lines(r2[1]), is_start)
@@ -905,7 +926,7 @@ def dw_tables():
     import elftools.elf.descriptions as ED
     import elftools.elf.enums as EE
 
-    def attr_table(arch):
+    def attr_table(arch, le=True):
         def b():
             if arch == 'arm':
                 tags, vals, vendor, mach, secname, styp = EE.ENUM_ATTR_TAG_ARM, ED._DESCR_ATTR_VAL_ARM, b'aeabi', 40, '.ARM.attributes', 0x70000003
@@ -937,17 +958,20 @@ def dw_tables():
                 else:
                     body += uleb(t) + uleb(1)
                     n += 1
-            sub = bytes([1]) + struct.pack('<I', 5 + len(body)) + body
+            EE_ = '<I' if le else '>I'
+            sub = bytes([1]) + struct.pack(EE_, 5 + len(body)) + body
             blk = vendor + b'\0' + sub
-            sec = b'A' + struct.pack('<I', 4 + len(blk)) + blk
+            sec = b'A' + struct.pack(EE_, 4 + len(blk)) + blk
             cls = 32 if arch == 'arm' else 64
-            img = elfgen.build(cls=cls, le=True, machine=mach, etype=1, eflags=0x05000000 if arch == 'arm' else 0,
+            img = elfgen.build(cls=cls, le=le, machine=mach, etype=1, eflags=0x05000000 if arch == 'arm' else 0,
                                sections=[elfgen.Sec('.text', 1, flags=6, data=b'\0' * 4), elfgen.Sec(secname, styp, data=sec)])[0]
             return img, n
         return b
     is_tag = lambda ln: ln.strip().startswith('tag_')
     T.append(('attributes/arm', '-A', attr_table('arm'), is_tag))
     T.append(('attributes/riscv', '-A', attr_table('riscv'), is_tag))
+    T.append(('attributes/arm-be', '-A', attr_table('arm', False), is_tag))
+    T.append(('attributes/riscv-be', '-A', attr_table('riscv', False), is_tag))
 
     is_cfa = lambda ln: ln.strip().startswith('dw_cfa_') or 'cie' in ln or 'fde' in ln
     T.append(('DW_CFA/x86-64', '--debug-dump=frames', cfa_table(62, False), is_cfa))
@@ -1029,8 +1053,8 @@ def first_phdr_line(out):
     for i, ln in enumerate(lines):
         if ln.strip().lower().startswith('type') and 'offset' in ln.lower():
             j = i + 1
-            while j < len(lines) and not lines[j].strip():
-                j += 1
+            while j < len(lines) and (not lines[j].strip() or lines[j].strip().lower().startswith('filesiz')):
+                j += 1          # blank lines and the second heading line of the 64-bit layout
             if j < len(lines):
                 nxt = lines[j + 1] if j + 1 < len(lines) and lines[j + 1].startswith('       ') else ''
                 return ' '.join((lines[j] + ' ' + nxt).split()).lower()
